@@ -41,6 +41,10 @@ func runC04(c *rt.C) {
 		c04DeltaRefresh(c)
 		return
 	}
+	if c.Index == 6+len(slMicros)+13 || c.Index == 6+len(slMicros)+14 {
+		c04TwoFlushers(c, mem)
+		return
+	}
 	if c.Index >= 6+len(slMicros)+4 && c.Index < 6+len(slMicros)+12 {
 		c04ParkedAccessor(c, mem, (c.Index-(6+len(slMicros)+4))/2)
 		return
@@ -105,7 +109,7 @@ func init() {
 		ID: "C04", Level: "exploration",
 		Technique: "sanitizer-style runtime monitoring: MMU-enforced page-guard allocator and poison/quarantine allocator passed through Config.UseMemoryMgmt, exact shadow live-set, 'freed while still linked' walk on every free, reachable ⊆ live-set at quiescent checkpoints, held-node re-reads",
 		Rule: "user-managed memory only, alternating pageguard / poison. Two of three cases run the ownership engine (2-8 writers, 4-64 keys, 2-6 scanner goroutines with refresh rates {0,1,2,7} that hold nodes and re-read them, concurrent Visitors, snapshot churn closed in random/newest-first/oldest-last order from concurrent goroutines, GC() storms, hook and allocator perturbation); every third case runs the contention engine (2-8 writers on 1-8 shared keys, same-epoch and cross-epoch deletes of one node by several writers). " +
-			"Case 30 is the delta-backup refresh schedule (StoreToDisk with delta interleaving scans through a placeholder snapshot, so only the visitor's token protects the items; the visitor is parked inside Iterator.Refresh after dropping its token while its cursor item is deleted, collected and released; the restored backup must still be exact). Cases 22-29 park an accessor (Writer.GetNode, snapshot Iterator.Seek, Writer.Put2, Writer.Delete) inside the user-supplied key comparator right after it loaded a successor pointer, delete that successor (a current-epoch item, flushed at once) from another writer, and resume: the accessor must not touch released memory (hook-free). Cases 18-21 chain nodes in the library's NodeList and delete one of them in its own epoch (only that node may be released). Cases 0-5 are deterministic rendezvous schedules (insert of a tall node parked before linking level k ‖ delete+flush of that node), cases 6-17 enumerate the insert/delete micro-scenarios of C13 under the serialized controller in user-managed memory (after every schedule nothing released may still be linked). A fault inside the guard region, a double/invalid free, damaged poison or canary, a node freed while reachable from the head at any level, or a linked node that is not a live block is a violation. evaluations = blocks freed under guard; distinct = workload configuration / scan-age tuples",
+			"Cases 33-34 are the two-flusher schedule (an iterator parked after loading the pointer to a deleted item b holds a token of session S1; one collection worker flushes an empty list and is parked right after its session swap, a second one unlinks b and flushes it into the younger session; when the iterator resumes and steps onto b, b must still be a live block). Case 32 is the delta-backup refresh schedule (StoreToDisk with delta interleaving scans through a placeholder snapshot, so only the visitor's token protects the items; the visitor is parked inside Iterator.Refresh after dropping its token while its cursor item is deleted, collected and released; the restored backup must still be exact). Cases 24-31 park an accessor (Writer.GetNode, snapshot Iterator.Seek, Writer.Put2, Writer.Delete) inside the user-supplied key comparator right after it loaded a successor pointer, delete that successor (a current-epoch item, flushed at once) from another writer, and resume: the accessor must not touch released memory (hook-free). Cases 20-23 chain nodes in the library's NodeList and delete one of them in its own epoch (only that node may be released). Cases 0-5 are deterministic rendezvous schedules (insert of a tall node parked before linking level k ‖ delete+flush of that node), cases 6-19 enumerate the insert/delete micro-scenarios of C13 under the serialized controller in user-managed memory (after every schedule nothing released may still be linked). A fault inside the guard region, a double/invalid free, damaged poison or canary, a node freed while reachable from the head at any level, or a linked node that is not a live block is a violation. evaluations = blocks freed under guard; distinct = workload configuration / scan-age tuples",
 		Assumptions: []string{"a use after free is observed only if it happens while the block is still under guard (pageguard never reuses addresses; poison quarantines for the life of the child process)", "node handles are used by the harness only while it holds an accessor token or the item is undeleted"},
 		Cases: func(t string) int {
 			if t == "thorough" {
@@ -517,4 +521,126 @@ func c04DeltaRefresh(c *rt.C) {
 	c.Sig("delta-refresh/victim-freed")
 	c.Sample(map[string]interface{}{"directed": "delta backup: visitor parked in Iterator.Refresh while its cursor item is deleted, collected and released", "keys": nKeys, "victim": victim, "restored_items": len(got)})
 	res.snap.Close()
+}
+
+// ---------------------------------------------------------------------------
+// two flushers: the close order of barrier sessions must be the order of their swaps
+//
+// keys a, b, c; snap1; Delete(b); snap2 (garbage list [b]); snap3. A reader iterates snap3 and is parked
+// inside Next right after it loaded a's successor pointer (b); it holds a token of barrier session S1.
+// snap1.Close(): collection worker X flushes snap1's empty list (S1 -> S2) and is parked right after the
+// session swap. snap2.Close(): worker Y unlinks b and flushes [b] (S2 -> S3). S1 was closed first and
+// still contains the reader, so [b], attached to the younger S2, must stay pending until the reader has
+// left: when the reader resumes and steps onto b, b must still be a live block. The verdict is taken at
+// the reader's own read (hook VpIterNextRead / the guard allocator), never from a clock; the pauses only
+// give a wrong ordering the time to release b.
+func c04TwoFlushers(c *rt.C, mem string) {
+	hits, trials := 0, 6
+	for trial := 0; trial < trials && !c.Failed(); trial++ {
+		db := OpenDB(DBOpt{Mem: mem})
+		w1 := db.N.NewWriter()
+		_ = db.N.NewWriter() // a second writer: a second collection worker
+		nodeA := w1.Put2([]byte("a"))
+		nodeB := w1.Put2([]byte("b"))
+		w1.Put([]byte("c"))
+		snap1, _ := db.N.NewSnapshot()
+		if !w1.Delete([]byte("b")) {
+			c.Inconclusive("delete of b failed")
+			return
+		}
+		snap2, _ := db.N.NewSnapshot()
+		snap3, _ := db.N.NewSnapshot()
+		var readerOnce, flushes, onFreed int32
+		readerParked, readerGo := make(chan struct{}), make(chan struct{})
+		f1Parked, f1Go := make(chan struct{}), make(chan struct{})
+		skiplist.VerifSetHook(func(id int, arg unsafe.Pointer) {
+			switch id {
+			case skiplist.VpIterNextRead:
+				if arg != nil && db.A.WasFreed(arg) {
+					atomic.StoreInt32(&onFreed, 1)
+				}
+				if arg == unsafe.Pointer(nodeA) && atomic.CompareAndSwapInt32(&readerOnce, 0, 1) {
+					close(readerParked)
+					<-readerGo
+				}
+			case skiplist.VpFlushSwapped:
+				if atomic.AddInt32(&flushes, 1) == 1 {
+					close(f1Parked)
+					<-f1Go
+				}
+			}
+		})
+		var seen []string
+		type res struct{ fault interface{} }
+		done := make(chan res, 1)
+		go func() {
+			debug.SetPanicOnFault(true)
+			defer func() { done <- res{recover()} }()
+			it := snap3.NewIterator()
+			for it.SeekFirst(); it.Valid(); it.Next() {
+				seen = append(seen, string(it.Get()))
+			}
+			it.Close()
+		}()
+		wait := func(ch chan struct{}) bool {
+			select {
+			case <-ch:
+				return true
+			case <-time.After(20 * time.Second):
+				return false
+			}
+		}
+		reached := wait(readerParked)
+		if reached {
+			snap1.Close() // worker X: flush of an empty list, parked after the swap
+			reached = wait(f1Parked)
+		}
+		freedUnderReader := false
+		if reached {
+			hits++
+			snap2.Close() // worker Y: unlink b, flush [b]
+			for i := 0; i < 150 && !freedUnderReader; i++ {
+				freedUnderReader = db.A.WasFreed(unsafe.Pointer(nodeB))
+				time.Sleep(2 * time.Millisecond)
+			}
+		}
+		if atomic.LoadInt32(&flushes) == 0 {
+			close(f1Parked)
+		}
+		close(f1Go)
+		time.Sleep(20 * time.Millisecond)
+		if atomic.LoadInt32(&readerOnce) == 0 {
+			atomic.StoreInt32(&readerOnce, 1)
+		}
+		close(readerGo)
+		r := <-done
+		skiplist.VerifSetHook(nil)
+		c.Evals(1)
+		witness := map[string]interface{}{"mem": mem, "trial": trial, "b_released_while_reader_parked": freedUnderReader, "reader_saw": seen}
+		if r.fault != nil {
+			c.Violate("use-after-free/two-flushers", fmt.Sprintf("an iterator that entered before b was unlinked (parked after loading the pointer to b) touched released memory when it resumed; the flush of the younger session [b] overtook the flush of the older session that still contains the iterator: %v", r.fault), witness)
+			return
+		}
+		if atomic.LoadInt32(&onFreed) == 1 {
+			c.Violate("use-after-free/two-flushers", "an iterator that entered before b was unlinked (parked after loading the pointer to b) stepped onto a node that had already been returned to the allocator: the flush of the younger session [b] overtook the flush of the older session that still contains the iterator", witness)
+			return
+		}
+		for _, v := range db.A.Violations() {
+			c.Violate("alloc-"+v.Kind, fmt.Sprintf("two flushers: %+v", v), witness)
+		}
+		if reached && fmt.Sprint(seen) != "[a c]" && !c.Failed() {
+			c.Violate("two-flushers/scan", fmt.Sprintf("the snapshot iterator over {a, c} returned %v", seen), witness)
+		}
+		snap3.Close()
+		db.N.Close()
+		if n := db.A.LiveCount(); n != 0 && !c.Failed() {
+			c.Inconclusive(fmt.Sprintf("C07's oracle: %d blocks live after Close", n))
+		}
+	}
+	c.Sig("two-flushers/mem=%s/reached=%v", mem, hits > 0)
+	c.Count("two_flusher_trials_reaching_the_window", int64(hits))
+	if hits == 0 {
+		c.Inconclusive("the two-flusher window was never reached")
+	}
+	c.Sample(map[string]interface{}{"directed": "two flushers: older session with a parked iterator, younger session carrying the unlinked node", "mem": mem, "trials": trials, "window_reached": hits})
 }
